@@ -7,7 +7,8 @@
    groups not listed there are validated by the predicate sweep only — see DESIGN.md). *)
 From Coq Require Import Reals List Lra.
 From Manif Require Import Scalar Mat Group RInst Generic LieSpec SO2 SE2 SO3 SE3 SE23 SGal3 Rn
-  SE2Proofs SO3Proofs SE23Proofs RnProofs Adj_SO2 Adj_SE2 Adj_SO3 Adj_SE3 Adj_SE23 Adj_SGal3 Adj_Rn JacInv_SO3.
+  SE2Proofs SO3Proofs SE23Proofs RnProofs Adj_SO2 Adj_SE2 Adj_SO3 Adj_SE3 Adj_SE23 Adj_SGal3 Adj_Rn JacInv_SO3 JacInv_SE2 AdjExp_SO3
+  Bundle BundleLaws BundleInst BundleCore.
 Import ListNotations.
 Local Open Scope R_scope.
 
@@ -40,3 +41,33 @@ Theorem C06_JacInv_SO3_right eps x y z : 0 < eps -> eps < x * x + y * y + z * z 
   @mmul RS (so3_rjacinv RS eps [x; y; z]) (so3_rjac RS eps [x; y; z]) = @mid RS 3.
 Proof. intros H. exact (so3_rjac_rjacinv eps H x y z). Qed.
 Print Assumptions C06_JacInv_SO3_right.
+
+(* SE2, closed-form branch (eps < theta^2; the code divides by cos theta - 1): the inverse Jacobians are the two-sided
+   matrix inverses, and Adj(exp t) = ljac(t) rjacinv(t) *)
+Theorem C06_JacInv_SE2_right eps x y th : 0 < eps -> eps < th * th -> cos th <> 1 ->
+  @mmul RS (se2_rjac RS eps [x; y; th]) (se2_rjacinv RS eps [x; y; th]) = @mid RS 3 /\
+  @mmul RS (se2_rjacinv RS eps [x; y; th]) (se2_rjac RS eps [x; y; th]) = @mid RS 3.
+Proof. intros H. exact (se2_rjac_rjacinv eps H x y th). Qed.
+Theorem C06_JacInv_SE2_left eps x y th : 0 < eps -> eps < th * th -> cos th <> 1 ->
+  @mmul RS (se2_ljac RS eps [x; y; th]) (se2_ljacinv RS eps [x; y; th]) = @mid RS 3 /\
+  @mmul RS (se2_ljacinv RS eps [x; y; th]) (se2_ljac RS eps [x; y; th]) = @mid RS 3.
+Proof. intros H. exact (se2_ljac_ljacinv eps H x y th). Qed.
+Theorem C06_Adj_exp_SE2 eps x y th : 0 < eps -> eps < th * th -> cos th <> 1 ->
+  se2_adj RS (se2_exp RS eps [x; y; th]) = @mmul RS (se2_ljac RS eps [x; y; th]) (se2_rjacinv RS eps [x; y; th]).
+Proof. intros H. exact (se2_adj_exp eps H x y th). Qed.
+Print Assumptions C06_Adj_exp_SE2.
+
+(* SO3, generic branch: Adj(exp t) (the rotation matrix of the quaternion exp builds) = ljac(t) rjacinv(t) *)
+Theorem C06_Adj_exp_SO3 eps x y z : 0 < eps -> eps < x * x + y * y + z * z -> sin (sqrt (x * x + y * y + z * z)) <> 0 ->
+  so3_adj RS (so3_exp RS eps [x; y; z]) = @mmul RS (so3_ljac RS eps [x; y; z]) (so3_rjacinv RS eps [x; y; z]).
+Proof. intros H. exact (so3_adj_exp eps H x y z). Qed.
+Print Assumptions C06_Adj_exp_SO3.
+
+(* Bundles: for ANY list of element groups (packs: BundleCore.v) the Bundle's adj() — the block-diagonal matrix of the
+   elements' adjoints, as Bundle_base.h writes it — is a homomorphism: Adj(X*Y) = Adj(X) Adj(Y), Adj(Identity) = I, and
+   Adj(X^-1) is the two-sided inverse of Adj(X). *)
+Theorem C06_adj_Bundle (LM : list PackedM) (dM : PackedM) :
+  BundleAdjLaws (Bundle (map p_G (map m_pack LM)))
+    (bvalid RS (map p_G (map m_pack LM)) (fun i X => gc_valid (p_core (nth i (map m_pack LM) (m_pack dM))) X)).
+Proof. exact (bundle_adj_laws LM dM). Qed.
+Print Assumptions C06_adj_Bundle.
